@@ -49,6 +49,11 @@ META = {
         "and constitutive data are cut from the active grid's objects with (sub-grid, l2g_faces) / l2g_cells. "
         "R9: the cells whose rows of the cell-row matrices are kept/updated are selected with an all-faces criterion "
         "(today Biot uses `at least one active face`: known finding). "
+        "R8 also covers array-valued eta: an array numbered on the full grid must be restricted to the active grid before "
+        "it is gathered with l2g_faces (known finding in Mpfa and Mpsa). R10: a map_grid(<sub-grid>) reached from the "
+        "in-loop local discretization (one level of self-method calls) must receive its rotation from discretize, fixed "
+        "before the loop (known findings: the frame is refitted per sub-grid in Mpfa, Mpsa, Biot). R11: the cell set "
+        "returned by cell_ind_for_partial_update, concatenated over independent modes, is uniqued (known finding). "
         "Decides this bookkeeping (a necessary condition for split independence), not equality of matrix values, "
         "not the overlap construction in subproblems()/cell_ind_for_partial_update, not numba-vs-python inverters."),
     "rule_text": "one obligation per (local matrix | accumulator x stage | removal call | map call | key | yield)",
@@ -63,7 +68,7 @@ META = {
                  "desugared normal form (one level of private straight-line helpers inlined, loops/comprehensions over "
                  "literal sequences unrolled, parallel tuple assignments split)",
 }
-MIN_INSTANCES = {"R1": 40, "R2": 22, "R3": 200, "R4": 100, "R5": 15, "R6": 3, "R7": 38, "R8": 30, "R9": 1}
+MIN_INSTANCES = {"R1": 40, "R2": 22, "R3": 200, "R4": 100, "R5": 15, "R6": 3, "R7": 38, "R8": 34, "R9": 1, "R10": 3, "R11": 1}
 
 CONV = {"tocsr", "tocsc", "tocoo", "copy"}
 SPARSE_CTORS = {"csr_matrix", "csc_matrix", "coo_matrix", "csr_array", "csc_array", "coo_array"}
@@ -2459,6 +2464,7 @@ MUTANTS = [
     _m("biot-loop-bc-faces-in-subgrid", BIOT, "                active_bound, sub_sd, l2g_faces\n", "                active_bound, sub_sd, faces_in_subgrid\n", "R8"),
     _m("biot-loop-tensor-cells-in-subgrid", BIOT, "loc_c = active_constit.restrict_to_cells(l2g_cells)", "loc_c = active_constit.restrict_to_cells(cells_in_subgrid)", "R8"),
     _m("mpfa-loop-tensor-from-full-grid", MPFA, "loc_k = active_k.restrict_to_cells(l2g_cells)", "loc_k = k.restrict_to_cells(l2g_cells)", "R8"),
+    _m("mpfa-eta-gathered-with-faces-in-subgrid", MPFA, "eta=eta, sub_sd=sub_sd, l2g_faces=l2g_faces", "eta=eta, sub_sd=sub_sd, l2g_faces=faces_in_subgrid", "R8"),
     # --- R7: update tables
     _m("biot-divergence-listed-as-face-left", BIOT, "        scalar_cell_left = [\n            self.displacement_divergence_matrix_key,\n",
        "        scalar_cell_left = [\n", "R7"),
